@@ -16,7 +16,8 @@ from harness import core
 from harness import c03 as K
 
 PROP = "C05"
-TECHNIQUE = K.TECHNIQUE
+TECHNIQUE = ("Lean 4 proof (list induction, List.Perm, ring/field_simp) + exact differential correspondence "
+             "with user functions as value tables")
 LEVEL_TEXT = ("Lean 4 theorems, for all networks, initial states / functions, sample sets, volumes, tables, slices and "
               "weights: icODE = w sum_c (u(t0) - u0)_c^2; icPDE = mean over the spatial points of the batch of "
               "sum_c w_c (u0(x) - u(0,x))_c^2 (the time column of the batch is not read); normStatio = w (L mean_s u(s) - 1)^2 "
@@ -37,6 +38,7 @@ THEOREMS = [
     "Jinns.LossTerms.lossNonStatio_ic_ignores_times",
     "Jinns.LossTerms.normStatio_scalar",
     "Jinns.LossTerms.normNonStatio_scalar",
+    "Jinns.LossTerms.holds_dev_eq",
     "Jinns.LossTerms.mean_sq_dev_sub_sq_dev_mean",
     "Jinns.LossTerms.normStatio_ne_mean_of_sq_dev",
     "Jinns.LossTerms.rowParams_observed",
